@@ -11,13 +11,15 @@
 WITNESS(loom_get_cpu);
 int w_lg_index;
 unsigned long w_lg_ncpus;
+int w_lg_cell_null;               /* replay: the table entry an in-range index names is empty */
 
 struct cpu *cr_loom_get_cpu(struct loom *loom, int index)
 __CPROVER_requires(__CPROVER_is_fresh(loom, sizeof(*loom)) && LOOM_CPUS_WF(loom))
 /* the entries of the table are CPUs (or NULL) */
 __CPROVER_requires(!(index >= 0 && (size_t) index < loom->ncpus) || loom->cpus_array[index] == NULL ||
 	__CPROVER_is_fresh(loom->cpus_array[index], sizeof(struct cpu)))
-__CPROVER_requires(WBIND(loom_get_cpu, w_lg_index == index && w_lg_ncpus == loom->ncpus))
+__CPROVER_requires(WBIND(loom_get_cpu, w_lg_index == index && w_lg_ncpus == loom->ncpus &&
+	w_lg_cell_null == (!(index >= 0 && (size_t) index < loom->ncpus) || loom->cpus_array[index] == NULL)))
 __CPROVER_assigns()
 /* (pointer results are stated with __CPROVER_pointer_equals so that a caller
  * which has this contract in place of the call can dereference the result:
